@@ -16,6 +16,7 @@ import (
 	"crypto/x509/pkix"
 	"fmt"
 	"math/big"
+	"net"
 	"sync"
 	"time"
 
@@ -151,12 +152,23 @@ func leafTmpl(serial int64, cn string, notBefore, notAfter time.Time, client boo
 	eku := []x509.ExtKeyUsage{x509.ExtKeyUsageServerAuth, x509.ExtKeyUsageClientAuth}
 	_ = client
 
-	return &x509.Certificate{
+	t := &x509.Certificate{
 		SerialNumber: big.NewInt(serial), Subject: pkix.Name{CommonName: cn}, DNSNames: []string{cn},
 		NotBefore: notBefore, NotAfter: notAfter, KeyUsage: x509.KeyUsageDigitalSignature, ExtKeyUsage: eku,
 		BasicConstraintsValid: true,
 	}
+	if cn == labServerName {
+		// the lab server is also reachable under IP address literals (C03: server name = IP literal); other.lab is not
+		t.IPAddresses = []net.IP{net.ParseIP(labServerIP4), net.ParseIP(labServerIP6)}
+	}
+
+	return t
 }
+
+const (
+	labServerIP4 = "192.0.2.7"
+	labServerIP6 = "2001:db8::7"
+)
 
 func getPKI() *labPKI {
 	pkiOnce.Do(func() {
